@@ -25,7 +25,9 @@ RULE = (
     "arrangements (bad,good) and (good,bad); answers of `bad` = every sequence with <= r raises "
     "over the adaptive call sequence + always-raise; state = (program point, raises so far), "
     "transition = one destination call; invariant evaluated on good's stream after each "
-    "execution; non-trivial = program with an action and at least one raise explored"
+    "execution; plus a fork scenario (a process that already logged forks 1-3 workers, all log new "
+    "tasks into one shared file, real uuid4); non-trivial = program with an action and at least one "
+    "raise explored"
 )
 ASSUMPTIONS = [
     "no failing field serializers (quantifier); every serialized task id is continued (remote styles are C06's)",
@@ -59,7 +61,7 @@ EXIT_MAP = [0, 1, 2, 3, 4, 6, 11, 12]
 
 
 def units(tier):
-    out = []
+    out = [["fork"]]
     done = {}
     for n_max, devs in BOUNDS(tier)["plans"]:
         for n in range(1, n_max + 1):
@@ -74,6 +76,11 @@ def units(tier):
 
 
 def cases(unit, tier):
+    if unit == ["fork"]:
+        for nchildren in (1, 2, 3):
+            for warm in (0, 1, 70):
+                yield {"fork": [nchildren, warm]}
+        return
     n, dlo, dhi, si = unit
     for i, sh in enumerate(progs.forests(n)):
         if i == si:
@@ -106,7 +113,61 @@ def execute(prog, order, devs, strategy=None):
     return world.run_isolated(go)
 
 
+def run_fork(nchildren, warm):
+    """A process that has already logged forks workers; parent and children start new tasks and log
+    context-less messages into one shared append-mode file: (task_uuid, task_level) must stay unique
+    run-wide.  Uses the real uuid4 (the counter seam would be copied by fork)."""
+    import os
+    import json
+    import uuid
+    import tempfile
+    import eliot._action as _action
+    from eliot import FileDestination, start_action, log_message
+
+    tmp = tempfile.mkdtemp(prefix="vk_c02_", dir="/var/tmp")
+    path = os.path.join(tmp, "log")
+    world.fresh()
+    _action.uuid4 = uuid.uuid4
+    try:
+        f = open(path, "ab")
+        eliot.add_destinations(FileDestination(file=f))
+        for i in range(warm):
+            with start_action(action_type="startup", n=i):
+                pass
+        for i in range(nchildren):
+            pid = os.fork()
+            if pid == 0:
+                try:
+                    with start_action(action_type="request", worker=i):
+                        log_message("in-request", worker=i)
+                    log_message("contextless", worker=i)
+                    with start_action(action_type="request2", worker=i):
+                        pass
+                finally:
+                    os._exit(0)
+            os.waitpid(pid, 0)
+        with start_action(action_type="request", worker="parent"):
+            log_message("in-request", worker="parent")
+        log_message("contextless", worker="parent")
+        f.close()
+        msgs = [json.loads(l) for l in open(path, "rb").read().split(b"\n") if l]
+    finally:
+        _action.uuid4 = world.UUID4
+        world.fresh()
+        for fn in os.listdir(tmp):
+            os.unlink(os.path.join(tmp, fn))
+        os.rmdir(tmp)
+    viol = [("fork:" + sig, d) for sig, d in structinv.check_stream(msgs, order=False)]
+    expected = warm * 2 + (nchildren + 1) * 4 + nchildren * 2
+    if len(msgs) != expected:
+        viol.append(("fork:message-count", {"got": len(msgs), "want": expected}))
+    return Result(outcome=["fork", nchildren, warm, len(msgs)], states=len(msgs), transitions=len(msgs),
+                  executions=nchildren + 1, violations=viol[:3])
+
+
 def run_case(case):
+    if "fork" in case:
+        return run_fork(*case["fork"])
     prog = case["prog"]
     viol = []
     execs = 0
